@@ -918,6 +918,13 @@ func init() {
 			m.Unsafe = s
 			return m
 		}})
+	reg(&Op{Name: "ut.AsMulti", Kind: KMulti, Slots: unsafe("msg"), NSide: 1, Class: "user-multi", Unreg: true, ExtraOnly: true,
+		Build: func(s []string, c error, side []error) error { return &ut.AsMulti{Msg: s[0], Es: bre(c, side)} },
+		Model: func(s []string, c *Node, side []*Node) *Node {
+			m := multi(s[0]+" / "+c.Text+" / "+side[0].Text, br(c, side))
+			m.Unsafe = s
+			return m
+		}})
 	reg(&Op{Name: "ut.RegMulti", Kind: KMulti, Slots: unsafe("msg"), NSide: 1, Class: "user-multi",
 		Build: func(s []string, c error, side []error) error { return &ut.RegMulti{Msg: s[0], Es: bre(c, side)} },
 		Model: func(s []string, c *Node, side []*Node) *Node {
